@@ -299,3 +299,13 @@ def inlined(prog, f, depth=2, skip=()):
     g.inlined_helpers = list(inl.inlined)
     _cache[k] = g
     return g
+
+
+def inline_in_place(prog, f, skip=(), depth=2):
+    """replace f.node of *this* Program instance by its inlined form (for engines that resolve functions through the program
+    model, e.g. the path enumerator); returns the helper keys inlined"""
+    g = inlined(prog, f, depth=depth, skip=skip)
+    if g is not f:
+        f.node = g.node
+        return list(g.inlined_helpers)
+    return []
